@@ -5,6 +5,7 @@ package main
 // breaks the checks that depend on it (name "cNN" belongs to property CNN; a
 // property config may list more under "gens").
 func extraGens() {
+	runGen("c01", genC01)
 	runGen("c06", genC06)
 	runGen("c17", genC17)
 	runGen("c10", genC10)
